@@ -138,6 +138,14 @@ func (p c09) Run(c *core.Ctx, idx int) {
 			storeName = "reference-store-eager"
 			cmp.EmptyContainerIsAbsent = true
 		}
+		if idx%4 == 2 {
+			// a target whose new containers and list entries come into being holding data of a case already (an application
+			// constructor): an edit that creates such a node and writes another case into it leaves that other case only
+			st.Prefill = true
+			dp.ModelPrefill = true
+			defer func() { dp.ModelPrefill = false }()
+			storeName = "reference-store-prefilling"
+		}
 		target = &c18ref{st}
 	} else {
 		if why := dp.GoSupports(s, gm); why != "" {
